@@ -1,9 +1,110 @@
-"""C04 — the normal operator A.N is A^H A (see props/linop_common.py)."""
+"""C04 — the normal operator A.N is A^H A (see props/linop_common.py for the shared tree machinery).
+
+Additional dedicated streams: block operators with batch axes in every tiling regime (exact object-graph
+comparison with the modelled _normal_linop + numeric A.N x = A.H A x), and NUFFT with toeplitz on/off on
+square and non-square grids (numeric, within the interpolation accuracy of the NUFFT)."""
+import numpy as np
 from props import linop_common
+from vlib import core, coqlit as L, linser
+
+
+def block_cases(ctx, sp, rng):
+    cases, meta, bad = [], [], {}
+    n = ctx.n(60, 1200)
+    for _ in range(n):
+        D = rng.choice([1, 1, 2])
+        bat = [rng.randint(1, 4) for _ in range(rng.choice([0, 1, 1, 2]))]
+        B = [rng.randint(1, 3) for _ in range(D)]
+        regime = rng.choice(["tile", "tile-remainder", "overlap", "gap"])
+        if regime == "tile":
+            S = list(B); N = [b * rng.randint(1, 3) for b in B]
+        elif regime == "tile-remainder":
+            S = list(B); N = [b * rng.randint(1, 2) + rng.randint(1, max(1, b - 1)) for b in B]
+        elif regime == "overlap":
+            B = [b + 1 for b in B]; S = [rng.randint(1, b - 1) for b in B]; N = [b + rng.randint(0, 3) for b in B]
+        else:
+            S = [b + rng.randint(1, 2) for b in B]; N = [b + rng.randint(0, 4) for b in B]
+        # make leading batch sizes divisible by the block size sometimes (axes must not be confused)
+        if bat and rng.random() < 0.5:
+            bat[0] = B[0] * rng.randint(1, 2)
+        ish = bat + N
+        if int(np.prod(ish)) > 80:
+            continue
+        for which in ("a2b", "b2a"):
+            try:
+                A = sp.linop.ArrayToBlocks(ish, B, S)
+                if which == "b2a":
+                    A = A.H
+                if int(np.prod(A.ishape)) > 120 or 0 in A.ishape or 0 in A.oshape:
+                    continue
+                Sx = linser.Serializer()
+                T, TN = Sx.term(A), Sx.term(A.N)
+                desc = {"op": which, "ishape": ish, "blk_shape": B, "blk_strides": S, "regime": regime}
+                ctx.count("C04:blocks:%s:%s:%dD:batch%d" % (which, regime, D, len(bat)), key=T, sample=desc)
+                cases.append({"expr": "chk_normal %s %s" % (T, TN)}); meta.append(("normal-blocks", {"term": T, "desc": desc}))
+                x = linop_common.cvec(rng, A.ishape)
+                w, w2 = np.asarray(A.N(x)), np.asarray(A.H(A(x)))
+                if w.shape != w2.shape or not np.allclose(w, w2, rtol=1e-9, atol=1e-9):
+                    bad.setdefault("normal-blocks", ("A.N x != A.H(A x) for a block operator", {"kind": "oracle", "case": desc,
+                                                     "max_abs_diff": float(np.abs(w - w2).max())}))
+            except Exception as e:
+                bad.setdefault("exception-blocks", ("block operator raised %r" % e, {"kind": "impl-exception", "error": repr(e)}))
+    return cases, meta, bad
+
+
+def nufft_cases(ctx, sp, rng):
+    bad = {}
+    n = ctx.n(10, 120)
+    for _ in range(n):
+        nd = rng.choice([1, 2, 2, 2, 3])
+        while True:
+            grid = [rng.randint(3, 10) for _ in range(nd)]
+            if int(np.prod(grid)) <= 160:
+                break
+        bat = [2] if rng.random() < 0.25 else []
+        npts = rng.randint(8, 30)
+        coord = np.array([[rng.uniform(-g / 2, g / 2) for g in grid] for _ in range(npts)])
+        for toep in (False, True):
+            desc = {"grid": grid, "batch": bat, "npts": npts, "toeplitz": toep}
+            ctx.count("C04:nufft:%dD:toeplitz=%s:%s" % (nd, toep, "square" if len(set(grid)) == 1 else "non-square"),
+                      key=str(desc), sample=desc)
+            try:
+                A = sp.linop.NUFFT(bat + grid, coord, toeplitz=toep)
+                x = linop_common.cvec(rng, A.ishape)
+                w, w2 = np.asarray(A.N(x)), np.asarray(A.H(A(x)))
+                tol = 5e-2 if toep else 1e-6
+                err = np.linalg.norm(w - w2) / (np.linalg.norm(w2) + 1e-30)
+                if w.shape != w2.shape or err > tol:
+                    bad.setdefault("normal-nufft-toeplitz=%s" % toep, ("NUFFT(toeplitz=%s).N x differs from A.H(A x) (relative %.3g)" % (toep, err),
+                                                                         {"kind": "oracle", "case": desc, "coord": coord.tolist(), "rel_err": float(err)}))
+            except Exception as e:
+                bad.setdefault("exception-nufft", ("NUFFT normal raised %r" % e, {"kind": "impl-exception", "case": desc, "error": repr(e)}))
+    return bad
 
 
 def run(ctx):
-    linop_common.run_linop(ctx, "C04", "Prop_C04.v", 150, 4000, {"normal", "applyN"})
+    linop_common.run_linop(ctx, "C04", "Prop_C04.v", 130, 4000, {"normal", "applyN"})
+    sp = core.import_sigpy()
+    cases, meta, bad = block_cases(ctx, sp, ctx.rng)
+    bad.update(nufft_cases(ctx, sp, ctx.rng))
+    failing, ok = [], True
+    try:
+        failing = L.run_bool_cases(ctx, "c04blocks", linop_common.HEADER, cases, per_file=100)
+    except RuntimeError as e:
+        ok = False
+        ctx.notes.append("block-normal correspondence could not run: %s" % str(e)[:400])
+    ctx.obligation("corr:normal-blocks (%d cases)" % len(cases), ok and not failing)
+    ctx.obligation("oracle:block and NUFFT normal operators", not bad)
+    for k, (what, rep) in bad.items():
+        ctx.violation("C04: " + what, rep, signature="C04:" + k)
+    if failing:
+        i = failing[0]
+        ctx.violation("C04: modelled _normal_linop and the implementation's A.N differ for %s" % meta[i][1]["desc"],
+                      {"kind": "correspondence", "broken": "corr:normal-blocks", "case": meta[i][1]}, found_input=False,
+                      signature="C04:corr:normal-blocks")
+    if not ok and not ctx.violations:
+        ctx.violation("correspondence could not run", {"kind": "proof", "broken": "corr:coq-run"}, found_input=False, signature="C04:proof")
+    ctx.validated_only.append("NUFFT Toeplitz normal operator: only validated numerically (relative 5e-2 at the defaults)")
 
 
 def replay(obj):
